@@ -790,6 +790,20 @@ def phase_model(c, drv, hx, model_cases, kernel_cases, child_cases, strace_cases
         mlines.append("WR %s %d %d %d 1 1 exit:0 | %s | %s" % (t.name, cfd, sent, recs, " ".join(outcome_tokens(fsub)), " ".join(outcome_tokens(csub))))
         expect.append((rc_to_status(rc), (fmt_events(fsub), fmt_events(csub), [e[1] for e in bad_ev])))
         meta.append((t, ("wrapper-io",) + tuple(fault), "wrapper-io"))
+    # D8: Launch's status pipe: runs in which the injected fault hit the read of the close-on-exec pipe
+    for t, fault, rc, ev, base_ev in model_cases:
+        if t.kind != "wrapper" or t.name == "warc_parallel" or rc == "timeout" or fault[0] != "read":
+            continue
+        st_reads = [e for e in base_ev if e[0] == "read" and e[2] == 4]
+        if not st_reads:
+            continue
+        sfd = st_reads[0][1]
+        sub = [e for e in ev if e[0] == "read" and e[1] == sfd]
+        if not any(e[3] < 0 for e in sub):
+            continue
+        mlines.append("L 1 %d | %s" % (sfd, " ".join(outcome_tokens(sub))))
+        expect.append((rc_to_status(rc), fmt_events(sub)))
+        meta.append((t, ("launch",) + tuple(fault), False))
     # D5: iostream tools under strace injection: the segmentation of stdout into write(2) calls is the one observed in the
     #     fault-free run; the outcomes are the ones strace reports for the faulted run
     for t, inject, rc, calls, clean_calls in strace_cases:
